@@ -31,7 +31,9 @@ OFFSETS = [0, 0, 1, 1, 2, 3, 5, 8, 13]
 
 class ScriptedPlanner(BaseScheduler):
     def __init__(self, script, batching=False, lookahead=0, retract=False, draws=None, _flags=None):
-        super().__init__(preemptive=False, runtime=EventTime.zero(), lookahead=EventTime(lookahead, US), _flags=_flags)
+        # the attributes say what schedule() asks the Workload for: the Simulator counts the offer with them (SCHEDULER_START)
+        super().__init__(preemptive=False, runtime=EventTime.zero(), lookahead=EventTime(lookahead, US), policy=BranchPredictionPolicy.ALL,
+                         retract_schedules=retract, release_taskgraphs=True, _flags=_flags)
         self._script = list(script) or [0]
         self._draws = len(self._script) if draws is None else draws  # the script is read cyclically for this many draws
         self._pos = 0
